@@ -2444,7 +2444,7 @@ class Engine:
         if op == 'Sub':
             return result(aI - bI if aI is not None and bI is not None else None, self.fop('sub', aR, bR))
         if op == 'Mult':
-            return result(aI * bI if aI is not None and bI is not None else None, self.fop('mul', aR, bR))
+            return result(self.int_mul(aI, bI) if aI is not None and bI is not None else None, self.fop('mul', aR, bR))
         if op == 'Div':
             self.require(st, bR != 0, 'ZeroDivisionError', 'division')
             return RealV(self.fop('div', aR, bR))
@@ -2577,6 +2577,19 @@ class Engine:
                                                         z3.Select(rs(lo_, hi_, 1), r), z3.Select(rs(lo_, hi_, 1), r2))]))
             self.assumptions.add('frozenset(range(a,b,s)) is the set {a + k*s | k >= 0, a + k*s < b} (witness-form axioms + derived residue-uniqueness / window-uniqueness facts)')
         return self.uf_cache['rangeset']
+
+    def int_mul(self, a, b):
+        """Integer product; of two symbolic factors it is an uninterpreted (commutative) function when the contract
+        opts into `opaque_nonlinear` (byte counts etc.: only congruence is needed, and non-linear terms are costly)."""
+        if ('opaque_nonlinear' in self.contract.theories and not getattr(self, 'in_lemma', False)
+                and not z3.is_int_value(z3.simplify(a)) and not z3.is_int_value(z3.simplify(b))):
+            if 'imul' not in self.uf_cache:
+                f = z3.Function('imul', z3.IntSort(), z3.IntSort(), z3.IntSort())
+                self.uf_cache['imul'] = f
+                x, y = z3.Ints('imx imy')
+                self.facts.append(z3.ForAll([x, y], f(x, y) == f(y, x), patterns=[f(x, y)]))
+            return self.uf_cache['imul'](a, b)
+        return a * b
 
     def fop(self, op, a, b):
         """Real-valued arithmetic on floats; mode R = exact reals, mode U = uninterpreted."""
